@@ -189,3 +189,231 @@ Example ex_dead_detected :
   let e := fold_left (exstep StartUpToMax) [XSubmit; XSubmit; XSubmit; XWait [EnvKill 0; EnvPut 1 true; EnvExit 1]] (init_ex 2) in
   obs_of e = {| xo_running := [2]; xo_pendq := []; xo_done := [(0, 2); (1, 1)] |}.
 Proof. vm_compute. reflexivity. Qed.
+
+(* ------------------------------------------------------------------ the executor's own invariant, for every call sequence *)
+Definition ExInv (e : ex) : Prop :=
+  (forall i, has (running e) i = true -> fut_of e i = FPending) /\
+  (forall i, In i (pendq e) -> fut_of e i = FPending /\ has (running e) i = false) /\
+  NoDup (pendq e) /\
+  (forall i, In i (pendq e) \/ has (running e) i = true -> i < next e).
+
+Lemma ExInv_running_not_done e : ExInv e -> running_not_done e.
+Proof. intros (A & _) i Hi. now rewrite (A i Hi). Qed.
+
+Lemma has_app {V} (a b : list (nat * V)) i : has (a ++ b) i = has a i || has b i.
+Proof.
+  unfold has. induction a as [|[k v] a IH]; cbn [app lookup]; [reflexivity|].
+  destruct (Nat.eqb i k); [reflexivity|exact IH].
+Qed.
+Lemma has_map_alive l i : has (map (fun j => (j, {| p_alive := true |})) l) i = mem i l.
+Proof.
+  unfold has. induction l as [|a l IH]; cbn [map lookup mem existsb]; [reflexivity|].
+  destruct (Nat.eqb i a); [reflexivity|exact IH].
+Qed.
+Lemma has_set_dead r j i : has (set_dead j r) i = has r i.
+Proof.
+  unfold has, set_dead. induction r as [|[k p] r IH]; cbn [map lookup fst]; [reflexivity|].
+  destruct (Nat.eqb k j); cbn [lookup fst]; destruct (Nat.eqb i k); auto.
+Qed.
+Lemma has_del {V} (l : list (nat * V)) j i : has (del j l) i = negb (Nat.eqb i j) && has l i.
+Proof. unfold has. rewrite lookup_del. destruct (Nat.eqb i j); cbn; [reflexivity|]. now destruct (lookup l i). Qed.
+
+Lemma fut_of_set e e' i j f : futs e' = set_fut e j f -> fut_of e' i = if Nat.eqb i j then f else fut_of e i.
+Proof.
+  intros H. unfold fut_of. rewrite H. unfold set_fut. cbn [lookup]. destruct (Nat.eqb_spec i j) as [->|Hne]; [reflexivity|].
+  now rewrite lookup_del_other.
+Qed.
+
+Lemma In_firstn_skipn_disjoint {A} (l : list A) n x : NoDup l -> In x (firstn n l) -> In x (skipn n l) -> False.
+Proof.
+  intros H H1 H2. rewrite <- (firstn_skipn n l) in H. apply NoDup_app_inv in H. destruct H as (_ & _ & H). exact (H x H1 H2).
+Qed.
+
+Lemma ExInv_start_processes sp e : ExInv e -> ExInv (start_processes sp e).
+Proof.
+  intros (A & B & C & D). unfold start_processes. set (n := start_count sp e).
+  split; [|split; [|split]]; cbn [running pendq next].
+  - intros i Hi. change (fut_of e i = FPending). rewrite has_app, has_map_alive in Hi. apply orb_true_iff in Hi.
+    destruct Hi as [Hi|Hi]; [now apply A|]. apply mem_In in Hi. apply In_firstn_local in Hi. now apply B.
+  - intros i Hi. split.
+    + change (fut_of e i = FPending). apply B. eapply In_skipn_local; eauto.
+    + rewrite has_app, has_map_alive. apply orb_false_iff. split.
+      * apply B. eapply In_skipn_local; eauto.
+      * apply mem_false. intro F. eapply In_firstn_skipn_disjoint; eauto.
+  - rewrite <- (firstn_skipn n (pendq e)) in C. apply NoDup_app_inv in C. tauto.
+  - intros i [Hi|Hi]; [apply D; left; eapply In_skipn_local; eauto|].
+    rewrite has_app, has_map_alive in Hi. apply orb_true_iff in Hi. destruct Hi as [Hi|Hi]; [apply D; now right|].
+    apply mem_In in Hi. apply D. left. eapply In_firstn_local; eauto.
+Qed.
+
+Lemma ExInv_submit sp e : ExInv e -> ExInv (submit sp e).
+Proof.
+  intros (A & B & C & D). unfold submit. apply ExInv_start_processes.
+  split; [|split; [|split]]; cbn [running pendq next].
+  - intros i Hi. unfold fut_of. cbn [futs lookup]. destruct (Nat.eqb_spec i (next e)) as [->|Hne]; [reflexivity|]. now apply A.
+  - intros i Hi. apply in_app_or in Hi. destruct Hi as [Hi|[<-|[]]].
+    + split; [|now apply B]. unfold fut_of. cbn [futs lookup].
+      destruct (Nat.eqb_spec i (next e)) as [->|Hne]; [reflexivity|]. now apply B.
+    + split; [unfold fut_of; cbn [futs lookup]; now rewrite Nat.eqb_refl|].
+      destruct (has (running e) (next e)) eqn:E; [|reflexivity]. pose proof (D (next e) (or_intror E)). lia.
+  - apply NoDup_app_intro; [exact C|constructor; [intros []|constructor]|]. intros x Hx [<-|[]].
+    pose proof (D (next e) (or_introl Hx)). lia.
+  - intros i [Hi|Hi]; [apply in_app_or in Hi; destruct Hi as [Hi|[<-|[]]]; [pose proof (D i (or_introl Hi)); lia|lia]|].
+    pose proof (D i (or_intror Hi)). lia.
+Qed.
+
+Lemma ExInv_env e s : ExInv e -> ExInv (env e s).
+Proof.
+  intros (A & B & C & D).
+  assert (Hf : forall j, fut_of (env e s) j = fut_of e j) by (intros j; destruct s; reflexivity).
+  assert (Hh : forall j, has (running (env e s)) j = has (running e) j).
+  { intros j. destruct s; cbn [env running]; [reflexivity|apply has_set_dead|apply has_set_dead]. }
+  assert (Hp : pendq (env e s) = pendq e) by (destruct s; reflexivity).
+  assert (Hn : next (env e s) = next e) by (destruct s; reflexivity).
+  split; [|split; [|split]].
+  - intros j Hj. rewrite Hf. apply A. now rewrite <- Hh.
+  - intros j Hj. rewrite Hp in Hj. rewrite Hf, Hh. now apply B.
+  - now rewrite Hp.
+  - intros j Hj. rewrite Hn. apply D. rewrite Hp, Hh in Hj. exact Hj.
+Qed.
+
+Lemma ExInv_fold_env envs : forall e, ExInv e -> ExInv (fold_left env envs e).
+Proof. induction envs as [|s envs IH]; intros e H; cbn [fold_left]; [exact H|]. apply IH. now apply ExInv_env. Qed.
+
+Lemma ExInv_apply_result e i ok : ExInv e -> has (running e) i = true -> ExInv (apply_result e i ok).
+Proof.
+  intros (A & B & C & D) Hi. pose proof (A i Hi) as Hp.
+  assert (Hf : forall j, fut_of (apply_result e i ok) j = if Nat.eqb j i then FFinished ok else fut_of e j).
+  { intros j. apply fut_of_set. cbn [apply_result futs]. now rewrite Hp. }
+  split; [|split; [|split]]; cbn [apply_result running pendq next].
+  - intros j Hj. rewrite has_del in Hj. apply andb_true_iff in Hj. destruct Hj as [Hne Hj]. rewrite Hf.
+    apply negb_true_iff in Hne. rewrite Hne. now apply A.
+  - intros j Hj. destruct (B j Hj) as [B1 B2]. split.
+    + rewrite Hf. destruct (Nat.eqb_spec j i) as [->|Hne]; [congruence|exact B1].
+    + rewrite has_del, B2. apply andb_false_r.
+  - exact C.
+  - intros j [Hj|Hj]; [apply D; now left|]. rewrite has_del in Hj. apply andb_true_iff in Hj. apply D. right. tauto.
+Qed.
+
+Lemma ExInv_drain q : forall e, ExInv e -> ExInv (drain q e).
+Proof.
+  induction q as [|[i ok] q IH]; intros e H; cbn [drain].
+  - destruct H as (A & B & C & D). split; [|split; [|split]]; assumption.
+  - destruct (has (running e) i) eqn:E; [apply IH; now apply ExInv_apply_result|].
+    destruct H as (A & B & C & D). split; [|split; [|split]]; assumption.
+Qed.
+
+Lemma ExInv_fail_dead e i : ExInv e -> ~ In i (pendq e) -> ExInv (fail_dead e i).
+Proof.
+  intros H Hnp. unfold fail_dead. destruct (done (fut_of e i)) eqn:Ed; [exact H|]. destruct H as (A & B & C & D).
+  assert (Hf : forall j, fut_of {| maxw := maxw e; pendq := pendq e; running := del i (running e); rqueue := rqueue e;
+                                   futs := set_fut e i (FFinished false); next := next e |} j
+                         = if Nat.eqb j i then FFinished false else fut_of e j) by (intros j; now apply fut_of_set).
+  split; [|split; [|split]]; cbn [running pendq next].
+  - intros j Hj. rewrite has_del in Hj. apply andb_true_iff in Hj. destruct Hj as [Hne Hj]. rewrite Hf.
+    apply negb_true_iff in Hne. rewrite Hne. now apply A.
+  - intros j Hj. destruct (B j Hj) as [B1 B2]. split.
+    + rewrite Hf. destruct (Nat.eqb_spec j i) as [->|Hne]; [contradiction|exact B1].
+    + rewrite has_del, B2. apply andb_false_r.
+  - exact C.
+  - intros j [Hj|Hj]; [apply D; now left|]. rewrite has_del in Hj. apply andb_true_iff in Hj. apply D. right. tauto.
+Qed.
+
+Lemma drain_pendq q : forall e, pendq (drain q e) = pendq e.
+Proof. intros e. now destruct (drain_fields q e) as (_ & B & _). Qed.
+
+Lemma ExInv_fold_fail_dead l : forall e, ExInv e -> (forall i, In i l -> ~ In i (pendq e)) -> ExInv (fold_left fail_dead l e).
+Proof.
+  induction l as [|i l IH]; intros e H Hl; cbn [fold_left]; [exact H|]. apply IH.
+  - apply ExInv_fail_dead; [exact H|apply Hl; now left].
+  - intros j Hj. assert (Hp : pendq (fail_dead e i) = pendq e) by (unfold fail_dead; destruct (done (fut_of e i)); reflexivity).
+    rewrite Hp. apply Hl. now right.
+Qed.
+
+Lemma dead_ids_running e i : In i (dead_ids e) -> has (running e) i = true.
+Proof.
+  unfold dead_ids. intros H. apply in_map_iff in H. destruct H as ([j p] & <- & Hp). apply filter_In in Hp. destruct Hp as [Hp _].
+  cbn [fst]. unfold has. destruct (lookup (running e) j) eqn:E; [reflexivity|]. exfalso.
+  revert E. clear -Hp. induction (running e) as [|[k q] r IH]; [destruct Hp|]. cbn [lookup]. destruct Hp as [Hp|Hp].
+  - injection Hp as -> _. now rewrite Nat.eqb_refl.
+  - destruct (Nat.eqb j k); [discriminate|]. now apply IH.
+Qed.
+
+Lemma ExInv_consume e : ExInv e -> ExInv (consume e).
+Proof.
+  intros H. unfold consume. apply ExInv_fold_fail_dead; [now apply ExInv_drain|].
+  intros i Hi. rewrite drain_pendq. intro F. destruct H as (_ & B & _). destruct (B i F) as [_ Hb].
+  rewrite (dead_ids_running e i Hi) in Hb. discriminate.
+Qed.
+
+Lemma fold_cancel_futs l : forall fs i, ~ In i l ->
+  lookup (fold_left (fun fs j => (j, FCancelled) :: del j fs) l fs) i = lookup fs i.
+Proof.
+  induction l as [|j l IH]; intros fs i Hn; cbn [fold_left]; [reflexivity|].
+  rewrite IH by (intro; apply Hn; now right). cbn [lookup].
+  destruct (Nat.eqb_spec i j) as [->|Hne]; [exfalso; apply Hn; now left|]. now apply lookup_del_other.
+Qed.
+
+Lemma ExInv_cancel e : ExInv e -> ExInv (cancel e).
+Proof.
+  intros (A & B & C & D). unfold cancel. split; [|split; [|split]]; cbn [running pendq next].
+  - intros i Hi. unfold fut_of. cbn [futs]. rewrite fold_cancel_futs; [now apply A|].
+    intro F. destruct (B i F) as [_ Hb]. congruence.
+  - intros i [].
+  - constructor.
+  - intros i [[]|Hi]. apply D. now right.
+Qed.
+
+Lemma lookup_none_not_in {V} (l : list (nat * V)) i : lookup l i = None -> ~ In i (map fst l).
+Proof.
+  induction l as [|[k v] l IH]; cbn [lookup map fst]; [intros _ []|]. destruct (Nat.eqb_spec i k) as [->|Hne]; [discriminate|].
+  intros H [F|F]; [congruence|now apply IH].
+Qed.
+
+Lemma ExInv_stop e : ExInv e -> ExInv (stop e).
+Proof.
+  intros (A & B & C & D). unfold stop. split; [|split; [|split]]; cbn [running pendq next].
+  - intros i Hi. discriminate.
+  - intros i Hi. destruct (B i Hi) as [B1 B2]. split; [|reflexivity]. unfold fut_of. cbn [futs].
+    assert (G : forall l fs, ~ In i (map fst l) ->
+              lookup (fold_left (fun fs (ip : nat * proc) => (fst ip, FCancelled) :: del (fst ip) fs) l fs) i = lookup fs i).
+    { induction l as [|[j p] l IHl]; intros fs Hn; cbn [fold_left]; [reflexivity|]. cbn [map fst] in Hn.
+      rewrite IHl by (intro; apply Hn; now right). cbn [lookup fst].
+      destruct (Nat.eqb_spec i j) as [->|Hne]; [exfalso; apply Hn; now left|]. now apply lookup_del_other. }
+    rewrite G; [exact B1|]. apply lookup_none_not_in. unfold has in B2. destruct (lookup (running e) i); [discriminate|reflexivity].
+  - exact C.
+  - intros i [Hi|Hi]; [apply D; now left|discriminate].
+Qed.
+
+Theorem ExInv_exstep sp e o : ExInv e -> ExInv (exstep sp e o).
+Proof.
+  intros H. destruct o as [|envs| |]; cbn [exstep].
+  - now apply ExInv_submit.
+  - unfold wait. apply ExInv_start_processes. apply ExInv_consume. now apply ExInv_fold_env.
+  - now apply ExInv_cancel.
+  - now apply ExInv_stop.
+Qed.
+
+Lemma ExInv_init w : ExInv (init_ex w).
+Proof.
+  split; [|split; [|split]]; cbn.
+  - intros i H. discriminate.
+  - intros i [].
+  - constructor.
+  - intros i [[]|H]. discriminate.
+Qed.
+
+Theorem ExInv_states sp ops : forall e, ExInv e -> forall e', In e' (states sp e ops) -> ExInv e'.
+Proof.
+  induction ops as [|o ops IH]; intros e H e' [<-|Hin]; try exact H; [destruct Hin|].
+  apply (IH (exstep sp e o)); [now apply ExInv_exstep|exact Hin].
+Qed.
+
+(* hence, with no assumption left: at every point of every call sequence, a worker that is dead when a wait() begins is
+   failed (or finished, if its result had been queued) and removed by that wait() *)
+Theorem dead_detected_always sp ops w e i : In e (states sp (init_ex w) ops) -> In i (dead_ids e) ->
+  done (fut_of (consume e) i) = true /\ has (running (consume e)) i = false.
+Proof.
+  intros He Hi. pose proof (ExInv_states sp ops (init_ex w) (ExInv_init w) e He) as HI.
+  split; [now apply dead_worker_done|]. apply dead_worker_removed; [now apply ExInv_running_not_done|exact Hi].
+Qed.
